@@ -82,8 +82,9 @@ def job_cascade(kind="restricted"):
     def c_norm(interp, args, kwargs):
         ctx = interp.ctx
         obasis, _atcoords, ca, cb = (interp.resolve(a) for a in args[:4])
+        thr_arg = interp.resolve(args[4]) if len(args) > 4 else kwargs.get("norm_threshold", "omitted (the callee's default would apply)")
         b = ctx.branch(z3.Bool(ctx.fresh("normalized")))
-        ctx.event("test", obasis, snap(ca), snap(cb), b)
+        ctx.event("test", obasis, snap(ca), snap(cb), b, thr_arg)
         return b
 
     def basis_contract(name, optional):
@@ -170,7 +171,7 @@ def job_cascade(kind="restricted"):
             cands.append(("psi4c", cand["normed"], scaled(a0, c), scaled(b0, c) if b0 is not None else None))
 
         def which(test):
-            _, basis, ca, cb, _b = test
+            _, basis, ca, cb, _b, _t = test
             for label, cb_basis, xa, xb in cands:
                 if basis is not cb_basis:
                     continue
@@ -185,6 +186,8 @@ def job_cascade(kind="restricted"):
         if os.environ.get("C05_DEBUG"):
             print("PATH", out.kind, getattr(out, "exc_class", None) if out.kind == "raise" else "", labels, [t[4] for t in tests], [(warning_class(w[1]), warning_text(w[1])[:90]) for w in warns], flush=True)
         ctx.prove(f"{T}::post.every-test-examines-both-spin-blocks-of-one-candidate-(basis,alpha,beta)", all(lb is not None for lb in labels) and len(tests) >= 1)
+        thr_ok = all(hasattr(t[5], "t") and z3.eq(to_z3(t[5]), z3.Real("norm_threshold")) for t in tests)
+        ctx.prove(f"{T}::post.every-test-uses-the-caller's-norm_threshold", thr_ok, witness={"thresholds passed": [str(getattr(t[5], "t", t[5])) for t in tests]})
         if kind == "unrestricted":
             ctx.prove(f"{T}::post.beta-orbitals-are-passed-to-every-test", all(t[3] is not None for t in tests))
         ctx.prove(f"{T}::post.candidates-are-tried-in-the-documented-order-without-repetition", labels == [c[0] for c in cands][: len(labels)] or all(labels[i] in [c[0] for c in cands] for i in range(len(labels))) and len(set(labels)) == len(labels) and labels == sorted(labels, key=[c[0] for c in cands].index))
@@ -193,7 +196,7 @@ def job_cascade(kind="restricted"):
             ctx.prove(f"{T}::post.returns-only-right-after-a-successful-test-(all-earlier-tests-failed)", ok_last)
             if not tests:
                 return
-            _, basis, ca, cb, _b = tests[-1]
+            _, basis, ca, cb, _b, _t = tests[-1]
             ctx.prove(f"{T}::post.returned-basis-is-the-basis-of-the-successful-test", result["obasis"] is basis)
             if kind == "restricted":
                 ctx.prove(f"{T}::post.returned-coefficients-are-those-of-the-successful-test", arr_eq(ctx, ca, read("coeffs")))
@@ -306,6 +309,34 @@ def job_norm(with_beta=True):
 
 
 
+CALLEES = ["_is_normalized_properly", "_fix_obasis_orca", "_fix_obasis_psi4", "_fix_obasis_turbomole", "_fix_obasis_normalize_contractions", "_fix_mo_coeffs_psi4", "_fix_mo_coeffs_cfour"]
+
+
+def job_callee_frames():
+    """The part of the callee contracts assumed by job_cascade that a frame analysis can discharge: the helpers (and
+    everything they call) write neither into what their arguments reach nor into module-level state."""
+    from pyvc.frame import Analysis
+
+    from checks.c09 import all_modules, offending
+
+    led = Ledger()
+    an = Analysis(all_modules()).run()
+    for name in CALLEES:
+        roots = [f"{M}.{name}"]
+        reach = an.reachable(roots)
+        bad = []
+        for k in sorted(reach):
+            if k.startswith(("iodata.orbitals.MolecularOrbitals.", "iodata.basis.", "iodata.utils.")) and (k.endswith("__init__") or k.endswith("__attrs_post_init__")):
+                continue
+            fi = an.funcs[k]
+            b = offending(fi)
+            if fi.qualname.endswith("__init__") or fi.qualname.endswith("__attrs_post_init__"):
+                b = [x for x in b if x[2] != ["arg:self"]]
+            bad += [(k, *x) for x in b]
+        led.record(f"frame@{M}.{name}::callee-contract.modifies-nothing-reachable-from-its-arguments-or-module-state", "frame", "refuted" if bad else "discharged", "provenance", 0.0, detail=f"{len(reach)} functions reachable; " + "; ".join(f"{k} line {ln}: {txt} -> {tags}" for k, ln, txt, tags in bad[:3]), witness={"sites": [str(b) for b in bad[:3]]} if bad else None)
+    return led
+
+
 # ----------------------------------------------------------------------------------------------------------------
 NORM_SCRIPT = r"""
 import itertools, json, sys
@@ -385,7 +416,7 @@ def vendor_probe(chk):
 def run(chk):
     chk.functions += [f"{T} (symbolic execution of the real source; callees under contract; restricted, unrestricted and generalized orbitals of arbitrary size)", f"{M}._is_normalized_properly (loop invariant, all block sizes; native cross-check bounded)", f"{M}.load_one / iodata.formats.molekel.load_one on vendor-encoded files (bounded)"]
     chk.trusted += [
-        "contracts assumed for the callees of the cascade: _is_normalized_properly is a pure predicate of (basis, alpha, beta, threshold); _fix_obasis_* return a new basis (or None) and do not modify their argument; _fix_mo_coeffs_* return a positive vector of length nbasis or None (their frames are checked in C09/C16)",
+        "contracts assumed for the callees of the cascade: _is_normalized_properly depends only on (basis, coordinates, alpha, beta, threshold) [its result is characterised by job_norm, its frame and those of the _fix_* helpers are discharged by job_callee_frames]; _fix_obasis_* return a new basis or None; _fix_mo_coeffs_* return a positive vector of length nbasis or None",
         "MolecularOrbitals.coeffsa / coeffsb are views of coeffs[:, :norba] / coeffs[:, norba:] (proved in C12)",
         "z3 (quantified array equalities)", "np.dot(v, np.dot(S, v)) is the quadratic form of the column v (numpy axiom); compute_overlap returns the overlap of the given basis (C06)",
         "bounded/overlap_oracle.py and the vendor encodings typed into bounded/vendor_probe.py from the documentation of the deviations",
@@ -393,6 +424,7 @@ def run(chk):
     chk.not_covered += ["the numerical correction factors inside _fix_obasis_* / _fix_mo_coeffs_* and the choice of the right branch when several candidates pass the norm test: bounded probe only", "pure/Cartesian tag handling and section parsing of molden.load_one: bounded probe and C03/C13"]
     jobs = [("checks.c05", "job_cascade", {"kind": k}) for k in ("restricted", "unrestricted", "generalized")]
     jobs += [("checks.c05", "job_norm", {"with_beta": wb}) for wb in (True, False)]
+    jobs.append(("checks.c05", "job_callee_frames", {}))
     collect(chk, run_jobs(jobs))
     norm_test(chk)
     vendor_probe(chk)
